@@ -186,6 +186,11 @@ class ISD(model.Document):
 
   def _region_always_has_background(region: typing.Type[model.Region]) -> bool:
 
+    # animation may make the background visible even if the specified styles do not
+
+    for _anim_step in region.iter_animation_steps():
+      return True
+
     if region.get_style(styles.StyleProperties.Opacity) == 0:
       return False
 
